@@ -18,7 +18,7 @@ def cache_history(ctx, rng, n_ops=12):
     use_cache = rng.random() < 0.7
     two = rng.random() < 0.5
     if not two:
-        sizes = [1.0, 2.0, 0.5, 4.0]
+        sizes = [1.0, 2.0, 0.5, rng.choice([4.0, 1.0 + 2.0 ** -30])]
         epochs = [Epoch(start_time=float(i), end_time=float(i + 1), pop_sizes={'pop_0': s}) for i, s in enumerate(sizes)]
         # an epoch with the same content as epoch 0 but other times: must be treated as the same key
         alias = Epoch(start_time=7.0, end_time=9.0, pop_sizes={'pop_0': sizes[0]})
@@ -27,7 +27,9 @@ def cache_history(ctx, rng, n_ops=12):
         # two demes; every epoch differs from epoch 0 in exactly ONE field (one size, or one DIRECTED migration rate, either
         # direction): the key of the cache is the whole content of the epoch
         base_s, base_m = {'pop_0': 1.0, 'pop_1': 2.0}, {('pop_0', 'pop_1'): 0.5, ('pop_1', 'pop_0'): 0.25}
-        variants = [({}, {}), ({'pop_1': 3.0}, {}), ({}, {('pop_0', 'pop_1'): 1.5}), ({}, {('pop_1', 'pop_0'): 1.25}), ({'pop_0': 0.5}, {})]
+        variants = [({}, {}), ({'pop_1': 3.0}, {}), ({}, {('pop_0', 'pop_1'): 1.5}), ({}, {('pop_1', 'pop_0'): 1.25}), ({'pop_0': 0.5}, {}),
+                    # differences far below any "approximately equal" tolerance are differences: the key is the exact content
+                    ({'pop_1': 2.0 * (1 + 2.0 ** -29)}, {}), ({}, {('pop_1', 'pop_0'): 0.25 + 2.0 ** -33})]
         rng.shuffle(variants)
         variants = [({}, {})] + [v for v in variants if v != ({}, {})][:3]
         epochs = [Epoch(start_time=float(i), end_time=float(i + 1), pop_sizes={**base_s, **ds}, migration_rates={**base_m, **dm})
